@@ -117,14 +117,29 @@ class SimTransport(Transport):
         self.sim.on_drop_node(self.nid, x)
 
 
+class SimMixin(object):
+    """Mixed in front of whatever SyncObj subclass the simulation runs: tells the simulated clock
+    when __sendAppendEntries is executing (its loop is only bounded by wall-clock time)."""
+
+    def _SyncObj__sendAppendEntries(self):
+        sim = SimTransport.sim
+        sim.in_send += 1
+        sim.skip = 2
+        try:
+            S.SyncObj._SyncObj__sendAppendEntries(self)
+        finally:
+            sim.in_send -= 1
+
+
 def make_app_class(versions=(0,)):
     """The replicated object: history of applied command ids.  op returns the position."""
     from pysyncobj import SyncObj, replicated
 
     class App(SyncObj):
         def __init__(self, *a, **k):
-            self.history = []
             super(App, self).__init__(*a, **k)
+            self.history = []       # after SyncObj.__init__, so that it is part of every snapshot
+
 
         @replicated
         def op(self, cid, pad, raises):
@@ -209,17 +224,8 @@ class Sim(object):
         SimTransport.sim = self
         SimTransport.pending_nid = nid
         me = addr(nid) if nid < RO_BASE else None
-        obj = self.App(me, [addr(o) for o in others], self.conf_for(nid), transportClass=SimTransport)
-        orig = obj._SyncObj__sendAppendEntries
-
-        def wrapped():
-            self.in_send += 1
-            self.skip = 2
-            try:
-                orig()
-            finally:
-                self.in_send -= 1
-        obj._SyncObj__sendAppendEntries = wrapped
+        cls = self.App if issubclass(self.App, SimMixin) else type('Sim' + self.App.__name__, (SimMixin, self.App), {})
+        obj = cls(me, [addr(o) for o in others], self.conf_for(nid), transportClass=SimTransport)
         self.nodes[nid] = obj
         self.dead.discard(nid)
         for k in list(self.chan):
@@ -255,7 +261,7 @@ class Sim(object):
         if t == 0:
             c = _pickle.loads(command[1:])
             if isinstance(c, tuple) and len(c) >= 2:
-                return (0, c[1][0], 0)
+                return (0, c[1][0], 1 if (len(c[1]) > 2 and c[1][2]) else 0)
             return (0, 0, 0)
         if t == 2:
             req = _pickle.loads(command[1:])
@@ -325,6 +331,9 @@ class Sim(object):
                 self.begin()
                 self.step_nid = a
                 t = self.tr(a)
+                if not (b in self.nodes and a in self.tr(b).connected):
+                    self.chan.setdefault((a, b), deque()).clear()
+                    self.chan.setdefault((b, a), deque()).clear()
                 t.connected.add(b)
                 if b >= RO_BASE:
                     t._onReadonlyNodeConnected(t._node_for(b))
@@ -445,6 +454,7 @@ class Sim(object):
         out += L(sorted(nid_of(x) for x in g('otherNodes')))
         out += L(sorted(nid_of(x) for x in g('readonlyNodes')))
         out += L(sorted(nid_of(x) for x in g('connectedNodes')))
+        out += L(sorted(g('transport').connected))
         out += L(pairs(g('raftNextIndex')))
         out += L(pairs(g('raftMatchIndex')))
         out += L(pairs(g('lastResponseTime'), ti))
